@@ -2,6 +2,7 @@
   C07 — scheduling is pure: existing procedures never change.
 
   Model: ExoModel.PyHeap (mini heap language + freshness analysis).
+  Lemmas: ExoModel.Lemmas.PyHeapSound (the invariant of the small-step semantics).
   Table: ExoModel.Gen.PyMut.functions, regenerated on every run by harness/translate/pymut.py from
   src/exo/{rewrite/LoopIR_scheduling, core/internal_cursors, core/LoopIR, API, API_scheduling,
   rewrite/new_eff, rewrite/LoopIR_unification}.py.
@@ -15,266 +16,11 @@
      and globals is among them).
   3. `functions_allMutationsFresh`: the per-run obligation on the regenerated table.
 -/
-import ExoModel.PyHeap
+import ExoModel.Lemmas.PyHeapSound
 import ExoModel.Gen.PyMut
 
 namespace Exo.PyHeap.C07
-open Exo.PyHeap
-
-/-! ## abstraction relation -/
-
-/-- a strong environment is described by `σ`: whatever `σ` calls fresh (bit clear) is not a
-    pre-existing object -/
-def Sat (E : Loc → Prop) (env : Env) (σ : Mask) : Prop :=
-  ∀ n l, σ.testBit n = false → env n = some l → ¬ E l
-
-/-- the same for the weak environment and the weak table -/
-def SatW (E : Loc → Prop) (w : Env) (T : Mask) : Prop :=
-  ∀ n l, T.testBit n = false → w n = some l → ¬ E l
-
-/-- what remains of an activation passes the check from `σ` (Prop version of `checkItems`; inside a
-    soup the invariant `σ'` is existentially chosen, so the property is stable while control stays
-    in the soup) -/
-def ItemsOk (T : Mask) : Mask → List Item → Prop
-  | _, [] => True
-  | σ, .top s :: rest => ∃ σ', absStmt T σ s = some σ' ∧ ItemsOk T σ' rest
-  | σ, .soup ss :: rest =>
-    ∃ σ', leS σ σ' = true ∧ (∀ s ∈ ss, soupOk T σ' s = true) ∧ ItemsOk T σ' rest
-
-theorem checkItems_itemsOk (T : Mask) :
-    ∀ (items : List Item) (σ : Mask), checkItems T σ items = true → ItemsOk T σ items
-  | [], _, _ => trivial
-  | .top s :: rest, σ, h => by
-    simp only [checkItems] at h
-    cases hs : absStmt T σ s with
-    | none => simp [hs] at h
-    | some σ' =>
-      simp only [hs] at h
-      exact ⟨σ', hs, checkItems_itemsOk T rest σ' h⟩
-  | .soup ss :: rest, σ, h => by
-    simp only [checkItems, Bool.and_eq_true, List.all_eq_true] at h
-    exact ⟨_, h.1.1, h.1.2, checkItems_itemsOk T rest _ h.2⟩
-
-theorem testBit_setBit (σ n : Nat) (b : Bool) (m : Nat) :
-    (setBit σ n b).testBit m = if m = n then b else σ.testBit m := by
-  unfold setBit
-  split
-  · rename_i h
-    have h' : σ.testBit n = b := by simpa using h
-    split
-    · subst_vars; rfl
-    · rfl
-  · rename_i h
-    have h' : σ.testBit n ≠ b := by simpa using h
-    rw [Nat.testBit_xor, Nat.one_shiftLeft, Nat.testBit_two_pow]
-    by_cases hm : m = n
-    · subst hm
-      simp
-      cases hb : b <;> cases hs : σ.testBit m <;> simp_all
-    · have : ¬ n = m := fun h => hm h.symm
-      simp [hm, this]
-
-theorem leS_le {σ σ' : Mask} (h : leS σ σ' = true) (n : Nat) (hn : σ'.testBit n = false) :
-    σ.testBit n = false := by
-  have h1 : σ ||| σ' = σ' := by simpa [leS] using h
-  have h2 : (σ ||| σ').testBit n = (σ.testBit n || σ'.testBit n) := Nat.testBit_or σ σ' n
-  rw [h1, hn] at h2
-  cases hs : σ.testBit n
-  · rfl
-  · rw [hs] at h2; simp at h2
-
-theorem leS_refl (σ : Mask) : leS σ σ = true := by simp [leS, Nat.or_self]
-
-theorem sat_mono {E : Loc → Prop} {e : Env} {σ σ' : Mask} (hs : Sat E e σ) (hle : leS σ σ' = true) :
-    Sat E e σ' := fun n l hf he => hs n l (leS_le hle n hf) he
-
-/-! ## one statement -/
-
-theorem getElem?_append_of_lt {α} (h : List α) (extra : List α) {l : Nat} (hl : l < h.length) :
-    (h ++ extra)[l]? = h[l]? := by
-  rw [List.getElem?_append_left hl]
-
-theorem eval_sound {E : Loc → Prop} {h0 h h' : Heap} {w e : Env} {T σ : Mask} {r : Rhs}
-    {v : Option Loc}
-    (hE : ∀ l, E l → l < h0.length) (hlen : h0.length ≤ h.length)
-    (hw : SatW E w T) (he : Sat E e σ) (hev : EvalRhs h w e r h' v) :
-    h.length ≤ h'.length ∧ (∀ l, l < h.length → h'[l]? = h[l]?) ∧
-      (r.nonFresh T σ = false → ∀ l, v = some l → ¬ E l) := by
-  cases hev with
-  | fresh cells =>
-    refine ⟨by simp, fun l hl => getElem?_append_of_lt h _ hl, ?_⟩
-    intro _ l hv hEl
-    have h1 : h.length = l := by simpa using hv
-    have h2 : l < h0.length := hE l hEl
-    have h3 : h0.length ≤ h.length := hlen
-    rw [← h1] at h2
-    exact Nat.lt_irrefl _ (Nat.lt_of_lt_of_le h2 h3)
-  | freshNone => exact ⟨Nat.le_refl _, fun _ _ => rfl, by intro _ l hv; cases hv⟩
-  | existing r hr extra v hv =>
-    refine ⟨by simp, fun l hl => getElem?_append_of_lt h _ hl, ?_⟩
-    intro hfr
-    cases r <;> simp [Rhs.existing] at hr <;> simp [Rhs.nonFresh] at hfr
-  | alias x =>
-    refine ⟨Nat.le_refl _, fun _ _ => rfl, ?_⟩
-    intro hfr l hv
-    cases x with
-    | s n => exact he n l (by simpa [Rhs.nonFresh, nf] using hfr) (by simpa [lookup] using hv)
-    | w n => exact hw n l (by simpa [Rhs.nonFresh, nf] using hfr) (by simpa [lookup] using hv)
-
-theorem sat_upd {E : Loc → Prop} {e : Env} {σ : Mask} {n : Nat} {v : Option Loc} {b : Bool}
-    (he : Sat E e σ) (hv : b = false → ∀ l, v = some l → ¬ E l) :
-    Sat E (upd e n v) (setBit σ n b) := by
-  intro m l hf hm
-  rw [testBit_setBit] at hf
-  by_cases hmn : m = n
-  · subst hmn
-    simp only [upd, if_true] at hm
-    simp only [if_true] at hf
-    exact hv hf l hm
-  · simp only [hmn, if_false] at hf
-    simp only [upd, hmn, if_false] at hm
-    exact he m l hf hm
-
-/-- abstract execution over-approximates concrete execution, and concrete execution of a statement
-    that passes leaves the pre-existing objects alone -/
-theorem exec_sound {E : Loc → Prop} {h0 h h' : Heap} {w w' e e' : Env} {T σ σ' : Mask}
-    {s : Stmt}
-    (hE : ∀ l, E l → l < h0.length) (hlen : h0.length ≤ h.length)
-    (hag : ∀ l, E l → h[l]? = h0[l]?)
-    (hw : SatW E w T) (he : Sat E e σ)
-    (habs : absStmt T σ s = some σ')
-    (hex : ExecStmt s (h, w, e) (h', w', e')) :
-    h0.length ≤ h'.length ∧ (∀ l, E l → h'[l]? = h0[l]?) ∧ SatW E w' T ∧ Sat E e' σ' := by
-  cases hex with
-  | bindS ln n r hev =>
-    obtain ⟨h1, h2, h3⟩ := eval_sound (T := T) (σ := σ) hE hlen hw he hev
-    simp only [absStmt, Option.some.injEq] at habs
-    subst habs
-    refine ⟨Nat.le_trans hlen h1, ?_, hw, sat_upd he h3⟩
-    intro l hl
-    rw [h2 l (Nat.lt_of_lt_of_le (hE l hl) hlen)]; exact hag l hl
-  | bindW ln n r hev =>
-    obtain ⟨h1, h2, h3⟩ := eval_sound (T := T) (σ := σ) hE hlen hw he hev
-    simp only [absStmt] at habs
-    split at habs
-    · cases habs
-    · rename_i hc
-      cases habs
-      refine ⟨Nat.le_trans hlen h1, ?_, ?_, he⟩
-      · intro l hl
-        rw [h2 l (Nat.lt_of_lt_of_le (hE l hl) hlen)]; exact hag l hl
-      · intro m l hf hm
-        by_cases hmn : m = n
-        · subst hmn
-          simp only [upd, if_true] at hm
-          have : r.nonFresh T σ = false := by
-            cases hr : r.nonFresh T σ
-            · rfl
-            · simp [hr, hf] at hc
-          exact h3 this l hm
-        · simp only [upd, hmn, if_false] at hm
-          exact hw m l hf hm
-  | mutate ln k x op hl hc hk ha =>
-    rename_i l cells cells'
-    simp only [absStmt] at habs
-    split at habs
-    · cases habs
-    · rename_i hfr
-      cases habs
-      have hfr' : nf T σ x = false := by simpa using hfr
-      have hnE : ¬ E l := by
-        cases x with
-        | s n => exact he n l (by simpa [nf] using hfr') (by simpa [lookup] using hl)
-        | w n => exact hw n l (by simpa [nf] using hfr') (by simpa [lookup] using hl)
-      refine ⟨by simpa using hlen, ?_, hw, he⟩
-      intro l' hl'
-      have hne : l ≠ l' := fun heq => hnE (heq ▸ hl')
-      rw [List.getElem?_set_ne hne]; exact hag l' hl'
-  | mutSkip ln k x =>
-    simp only [absStmt] at habs
-    split at habs
-    · cases habs
-    · cases habs; exact ⟨hlen, hag, hw, he⟩
-
-/-! ## runs -/
-
-structure Inv (E : Loc → Prop) (h0 : Heap) (T : Mask) (c : Config) : Prop where
-  len : h0.length ≤ c.heap.length
-  agree : ∀ l, E l → c.heap[l]? = h0[l]?
-  weak : SatW E c.wenv T
-  frames : ∀ fr ∈ c.frames, ∃ σ, Sat E fr.env σ ∧ ItemsOk T σ fr.items
-
-theorem sat_init (E : Loc → Prop) (σ : Mask) : Sat E (fun _ => none) σ := by
-  intro n l _ h; cases h
-
-theorem step_inv {g : Group} {T : Mask} (hT : checkGroup g T = true)
-    {E : Loc → Prop} {h0 : Heap} (hE : ∀ l, E l → l < h0.length)
-    {c c' : Config} (hinv : Inv E h0 T c) (hstep : Step g c c') : Inv E h0 T c' := by
-  obtain ⟨hlen, hag, hw, hfr⟩ := hinv
-  cases hstep with
-  | call f hf =>
-    refine ⟨hlen, hag, hw, ?_⟩
-    intro fr hmem
-    rcases List.mem_cons.mp hmem with rfl | hmem
-    · simp only [checkGroup, List.all_eq_true] at hT
-      exact ⟨_, sat_init E _, checkItems_itemsOk T _ _ (hT f hf)⟩
-    · exact hfr fr hmem
-  | leave pre fr post =>
-    refine ⟨hlen, hag, hw, ?_⟩
-    intro fr' hmem
-    apply hfr fr'
-    rcases List.mem_append.mp hmem with h | h
-    · exact List.mem_append.mpr (Or.inl h)
-    · exact List.mem_append.mpr (Or.inr (List.mem_cons_of_mem _ h))
-  | top pre post s rest hex =>
-    rename_i h w e h' w' e'
-    obtain ⟨σ, hs, hok⟩ := hfr ⟨e, .top s :: rest⟩ (by simp)
-    obtain ⟨σ', habs, hrest⟩ := hok
-    obtain ⟨a1, a2, a3, a4⟩ := exec_sound hE hlen hag hw hs habs hex
-    refine ⟨a1, a2, a3, ?_⟩
-    intro fr' hmem
-    rcases List.mem_append.mp hmem with hm | hm
-    · exact hfr fr' (List.mem_append.mpr (Or.inl hm))
-    · rcases List.mem_cons.mp hm with rfl | hm
-      · exact ⟨σ', a4, hrest⟩
-      · exact hfr fr' (List.mem_append.mpr (Or.inr (List.mem_cons_of_mem _ hm)))
-  | soupIn pre post ss s rest hmem_s hex =>
-    rename_i h w e h' w' e'
-    obtain ⟨σ, hs, hok⟩ := hfr ⟨e, .soup ss :: rest⟩ (by simp)
-    obtain ⟨σ', hle, hall, hrest⟩ := hok
-    have hs' : Sat E e σ' := sat_mono hs hle
-    have hso := hall s hmem_s
-    simp only [soupOk] at hso
-    cases habs : absStmt T σ' s with
-    | none => simp [habs] at hso
-    | some σ'' =>
-      simp only [habs] at hso
-      obtain ⟨a1, a2, a3, a4⟩ := exec_sound hE hlen hag hw hs' habs hex
-      refine ⟨a1, a2, a3, ?_⟩
-      intro fr' hmem
-      rcases List.mem_append.mp hmem with hm | hm
-      · exact hfr fr' (List.mem_append.mpr (Or.inl hm))
-      · rcases List.mem_cons.mp hm with rfl | hm
-        · exact ⟨σ', sat_mono a4 hso, σ', leS_refl σ', hall, hrest⟩
-        · exact hfr fr' (List.mem_append.mpr (Or.inr (List.mem_cons_of_mem _ hm)))
-  | soupOut pre post ss rest =>
-    rename_i e
-    obtain ⟨σ, hs, hok⟩ := hfr ⟨e, .soup ss :: rest⟩ (by simp)
-    obtain ⟨σ', hle, _, hrest⟩ := hok
-    refine ⟨hlen, hag, hw, ?_⟩
-    intro fr' hmem
-    rcases List.mem_append.mp hmem with hm | hm
-    · exact hfr fr' (List.mem_append.mpr (Or.inl hm))
-    · rcases List.mem_cons.mp hm with rfl | hm
-      · exact ⟨σ', sat_mono hs hle, hrest⟩
-      · exact hfr fr' (List.mem_append.mpr (Or.inr (List.mem_cons_of_mem _ hm)))
-
-theorem steps_inv {g : Group} {T : Mask} (hT : checkGroup g T = true)
-    {E : Loc → Prop} {h0 : Heap} (hE : ∀ l, E l → l < h0.length)
-    {c c' : Config} (hinv : Inv E h0 T c) (hsteps : Steps g c c') : Inv E h0 T c' := by
-  induction hsteps with
-  | refl => exact hinv
-  | tail _ hstep ih => exact step_inv hT hE ih hstep
+open Exo.PyHeap Exo.PyHeap.Sound
 
 /-- **Soundness of the freshness analysis.**  For every group of functions `g` of the mini
     language, every weak table `T` with which the check passes, every heap `h0`, every set `E` of
@@ -359,6 +105,38 @@ theorem buggy_changes_input : ∃ c, Steps remapBuggy ⟨[[10, 20]], fun _ => no
     (ExecStmt.mutate (l := 0) (cells := [10, 20]) (cells' := [10, 99]) 1857 .setitem (.s 0)
       (.setitem 1 99) rfl rfl rfl rfl))
   simpa using s3
+
+/-- `allMutationsFresh_pure` instantiated: whatever the fixed function does, however far it gets,
+    the index list at location 0 is what it was -/
+example (c : Config) (h : Steps remapFixed ⟨[[10, 20]], fun _ => none, []⟩ c) :
+    c.heap[0]? = some [10, 20] :=
+  allMutationsFresh_pure [remapFixed] (by decide) remapFixed (List.mem_cons_self ..) [[10, 20]] c h 0
+    (by decide)
+
+/-- `calc_idx` of `DoInlineWindow` in the mini language.  `idxs` is a parameter, (optionally)
+    rebound to a copy, and handed to the weak variable at the `if` statement that defines the
+    closure `map_w`; `map_w` pops from the captured `idxs`. -/
+def calcIdx (copy : Bool) : Group :=
+  { name := "calc_idx", file := "example", weak := ["calc_idx.idxs"],
+    funcs := [
+      { name := "calc_idx", line := 1059, strong := ["idxs", "win_idx", "map_w"],
+        items := [.top (.bind 1059 (.s 0) .param), .top (.bind 1060 (.s 1) .nodeField)] ++
+                 (if copy then [.top (.bind 1061 (.s 0) .fresh)] else []) ++
+                 [.top (.bind 1067 (.w 0) (.alias (.s 0))),
+                  .soup [.bind 1069 (.s 2) .fresh, .bind 1081 (.s 2) .fresh]] },
+      { name := "calc_idx.map_w", line := 1069, strong := ["w", "i"],
+        items := [.top (.bind 1069 (.s 0) .param), .top (.mutate 1073 .pop (.w 0)),
+                  .top (.bind 1073 (.s 1) .unknown)] }] }
+
+example : AllMutationsFresh [calcIdx true] := by decide
+example : ¬ AllMutationsFresh [calcIdx false] := by decide
+
+/-- `analysis_sound` instantiated with a weak variable, a soup and a proper subset `E` of the heap:
+    object 0 (the index list of the source procedure) is protected, object 1 is not in `E` -/
+example (c : Config) (h : Steps (calcIdx true) ⟨[[1, 2], [7]], fun _ => none, []⟩ c) :
+    c.heap[0]? = some [1, 2] :=
+  analysis_sound (calcIdx true) (inferT (calcIdx true)) (by decide) (fun l => l = 0) [[1, 2], [7]]
+    (by intro l hl; subst hl; decide) (fun _ => none) (by intro n l _ hn; cases hn) c h 0 rfl
 
 /-! ## the per-run obligation -/
 
